@@ -273,6 +273,10 @@ def answer (line : String) : String :=
       | some t => showType t
       | none => "none"
     | none => "bad-op"
+  | ["peg", h] =>
+    match hexStr h with
+    | some s => if jsonBlockAccepts s.toList then "ok" else "parse-error"
+    | none => "bad-op"
   | "deftypes" :: rest =>
     match (do
       let (n, r) ← pNat rest
